@@ -10,47 +10,6 @@ namespace Rosu
 namespace RtColours
 open Rosu Encode EncodeLines C11
 
-/-! ### `//`-free and trimmed lines -/
-
-theorem startsWith_ds_hasDS (s : Str) (h : startsWith s (str "//") = true) : hasDS s = true := by
-  match s with
-  | [] => have e : str "//" = ['/', '/'] := rfl; rw [e] at h; simp [startsWith] at h
-  | [a] => have e : str "//" = ['/', '/'] := rfl; rw [e] at h; simp [startsWith] at h
-  | a :: b :: rest =>
-    have e : str "//" = ['/', '/'] := rfl
-    rw [e] at h
-    simp only [startsWith, Bool.and_eq_true, beq_iff_eq] at h
-    simp [hasDS, h.1, h.2.1]
-
-/-- a line that ends in a character other than `]`, does not start with white space and contains no `//`
-is a record line. -/
-theorem recordLine_of_last (l : Str) (x : Char) (hx : l.getLast? = some x) (hne : x ≠ ']')
-    (hts : trimStart l = l) (hds : hasDS l = false) : RecordLine l := by
-  refine ⟨not_header_of_last l x hx hne, ?_⟩
-  unfold shouldSkipLine
-  rw [hts]
-  have h1 : l.isEmpty = false := by cases l <;> simp_all
-  have h2 : startsWith l (str "//") = false := by
-    cases h : startsWith l (str "//") with
-    | false => rfl
-    | true => rw [startsWith_ds_hasDS l h] at hds; cases hds
-  simp [h1, h2]
-
-/-- what `KeyValue::parse` sees in a comment-stripped, end-trimmed `key: value` line without `//`. -/
-theorem kvSplit_trimComment_kvl (key v : Str) (hk : ':' ∉ key) (hkt : trim key = key) (hv : trim v = v)
-    (hdk : hasDS key = false) (hdv : hasDS v = false) :
-    kvSplit (trimComment (trimEnd (kvl key v))) = (key, v) := by
-  have hds : hasDS (trimEnd (kvl key v)) = false := by
-    rw [trimEnd_kvl key v hv]
-    apply hasDS_append_sep key ':' _ hdk (by decide)
-    cases v with
-    | nil => rfl
-    | cons c r =>
-      simp only [List.isEmpty_cons, Bool.false_eq_true, if_false]
-      rw [hasDS_cons_of_ne ' ' _ (by decide)]
-      exact hdv
-  rw [trimComment_of_not_hasDS _ hds, trimEnd_idem, kvSplit_trimEnd_kvl key v hk hkt hv]
-
 /-! ### `r,g,b,a` -/
 
 theorem colorFields_chars (c : Color) : ∀ ch ∈ colorFields c, isDig ch = true ∨ ch = ',' := by
